@@ -2,6 +2,9 @@
 """List every alarm the checker raises on the benign patches (false alarms)."""
 import glob, json, os, shutil, subprocess, sys, tempfile
 VERIF = os.path.dirname(os.path.dirname(os.path.abspath(__file__)))
+CONFIGS = os.environ.get("CONFIGS", "linux/amd64").split(",")  # CONFIGS=all for the 8 thorough configurations
+if CONFIGS == ["all"]:
+    CONFIGS = ["linux/amd64", "linux/386", "linux/arm64", "darwin/amd64", "freebsd/amd64", "openbsd/amd64", "netbsd/amd64", "windows/amd64"]
 pats = sys.argv[1:] or ["mutants/benign/A-*.diff"]
 files = []
 for p in pats:
@@ -13,12 +16,17 @@ for f in files:
         dst = os.path.join(tmp, "repo")
         shutil.copytree("/repo", dst, ignore=shutil.ignore_patterns(".git"), symlinks=True)
         subprocess.run(["git", "apply", "--unsafe-paths", "--directory=" + dst, f], cwd=tmp, check=True, capture_output=True)
-        r = subprocess.run([os.path.join(VERIF, "bin", "fsverif"), "-property", "all", "-child", "-config", "linux/amd64", "-repo", dst], capture_output=True, text=True)
-        reps = json.loads(r.stdout[r.stdout.index("{"):])
         print("===", os.path.basename(f))
-        for pid, rep in sorted(reps.items()):
-            for ob in rep["Obs"]:
-                if ob["verdict"] in ("violation", "undecided") and not any(k["status"] == "open" and k["property"] == pid and k["rule"] == ob["rule"] and k["construct"] == ob["construct"] for k in known):
-                    print(f"  {pid} {ob['rule']} {ob['construct']} @{ob['pos']}: {ob['why'][:230]}")
+        for cfg in CONFIGS:
+            r = subprocess.run([os.environ.get("FSVERIF", os.path.join(VERIF, "bin", "fsverif")), "-property", "all", "-child", "-config", cfg, "-repo", dst], capture_output=True, text=True)
+            if "{" not in r.stdout:
+                print(f"  [{cfg}] checker failed: {r.stderr[-300:]}")
+                continue
+            reps = json.loads(r.stdout[r.stdout.index("{"):])
+            for pid, rep in sorted(reps.items()):
+                for ob in rep["Obs"]:
+                    if ob["verdict"] in ("violation", "undecided") and not any(k["status"] == "open" and k["property"] == pid and k["rule"] == ob["rule"] and k["construct"] == ob["construct"] for k in known):
+                        tag = "" if cfg == "linux/amd64" else f"[{cfg}] "
+                        print(f"  {tag}{pid} {ob['rule']} {ob['construct']} @{ob['pos']}: {ob['why'][:230]}")
     finally:
         shutil.rmtree(tmp, ignore_errors=True)
